@@ -299,7 +299,7 @@ func (l *Loader) parseMultiEntityResponse(res *result) (*astjson.Value, bool) {
 		return nil, true
 	}
 	response, parseErr := astjson.ParseBytesWithArena(l.jsonArena, res.out)
-	if parseErr != nil {
+	if parseErr != nil || !validNumbers(response, make([]byte, 0, 32)) {
 		// Invalid body: fan out so each entry re-parses and renders today's
 		// guards. loadPhase recorded no errored fetch ID, so dependents still run.
 		return nil, true
